@@ -82,4 +82,10 @@ META = {
         "note": "Partial: the auditd half is a contract of third-party auparse.Parse (TrimSpace) and is observed, not proved. FIFO-level delivery is C12's harness.",
         "technique": "Coq proof (list lemmas on split/join/trim) + direct-vs-framed differential execution",
     },
+    "C03": {
+        "text": "Coq theorems over ALL thread systems and ALL schedules at lock-acquisition granularity: C03_linearizable (a complete execution under the correlator-wide mutex equals the sequential execution of the same calls in the order they began, which respects each thread's program order), C03_prefix_sequential (at every intermediate point too), C03_deadlock_free, C03_blocks_compose (the blocks of a call compose to the sequential step used by C01-C09), C03_calls_are_critical_sections (GENERATED from sessiontracker.go: every exported method holds one and the same mutex for its whole body), and C03_unlocked_not_linearizable (a vm_compute witness that the same decomposition without the mutex loses both halves). The implementation is explored with forced single-preemption schedules at the lock hooks under the race detector; outcomes must be sequential outcomes.",
+        "design_ref": "DESIGN.md 6/C03",
+        "note": "Trusted: Coq kernel; go2v's reading of the Lock/defer Unlock idiom; hook placement in GenericSyncMap; Go race detector for data races (observed, not proved); bounded-preemption exploration is the search, the theorem covers all schedules of the model.",
+        "technique": "Coq proof (invariant over schedules; refinement blocks->step) on a generated lock table + forced-schedule exploration of the real code under -race",
+    },
 }
